@@ -87,7 +87,16 @@ func c16Signer(c C16Case) chain.Account {
 	case "vesting":
 		return pxVest
 	case "operator":
-		return chain.ValOp(c.Val % 3)
+		// the operator account of the validator the case names
+		base := pxBase()
+		vals := base.App.StakingKeeper.GetAllValidators(base.CheckCtx())
+		sort.Slice(vals, func(i, j int) bool { return vals[i].OperatorAddress < vals[j].OperatorAddress })
+		want := vals[c.Val%len(vals)].GetOperator()
+		for i := 0; i < len(vals); i++ {
+			if sdk.ValAddress(chain.ValOp(i).Addr).Equals(want) {
+				return chain.ValOp(i)
+			}
+		}
 	}
 	return pxSigner
 }
@@ -96,12 +105,12 @@ func genC16(t *rapid.T) C16Case {
 	c := C16Case{}
 	np := rapid.IntRange(0, 3).Draw(t, "nprelude")
 	for i := 0; i < np; i++ {
-		c.Prelude = append(c.Prelude, C16Pre{K: rapid.SampledFrom([]string{"delegate", "undelegate", "undelegate", "setw"}).Draw(t, "pk"),
-			Val: rapid.IntRange(0, 2).Draw(t, "pval"), Amt: rapid.SampledFrom([]string{"1000", "250000", "1000000"}).Draw(t, "pamt")})
+		c.Prelude = append(c.Prelude, C16Pre{K: rapid.SampledFrom([]string{"delegate", "undelegate", "undelegate", "undelegate-all", "setw"}).Draw(t, "pk"),
+			Val: rapid.IntRange(0, 3).Draw(t, "pval"), Amt: rapid.SampledFrom([]string{"1000", "250000", "1000000"}).Draw(t, "pamt")})
 	}
 	c.Method = rapid.SampledFrom([]string{"delegate", "delegate", "undelegate", "undelegate", "redelegate", "redelegate", "cancelUnbonding", "withdraw", "setWithdraw", "createValidator", "createValidator", "withdrawCommission"}).Draw(t, "method")
-	c.Val = rapid.IntRange(0, 2).Draw(t, "val")
-	c.Val2 = rapid.IntRange(0, 2).Draw(t, "val2")
+	c.Val = rapid.IntRange(0, 3).Draw(t, "val")
+	c.Val2 = rapid.IntRange(0, 3).Draw(t, "val2")
 	c.AmtMode = rapid.SampledFrom([]string{"abs", "abs", "balance", "delegation", "delegation"}).Draw(t, "amtmode")
 	if c.AmtMode == "abs" {
 		// 1,200,000 ISLM lies between the vesting signer's unlocked coins and its balance
@@ -114,6 +123,14 @@ func genC16(t *rapid.T) C16Case {
 	c.To = rapid.SampledFrom([]string{"w", "third", "signer"}).Draw(t, "to")
 	c.Signer = rapid.SampledFrom([]string{"", "", "vesting", "vesting", "operator"}).Draw(t, "signer")
 	c.Create = rapid.SampledFrom([]int{0, 0, 0, 1, 2, 3, 4, 5}).Draw(t, "create")
+	if rapid.IntRange(0, 9).Draw(t, "emptied-validator-scenario") == 0 {
+		// the operator of the validator without other delegators withdraws everything; the record stays (no tokens, no
+		// shares) and is then the target of the compared call
+		c.Signer, c.Val, c.Unknown = "operator", 3, false
+		c.Prelude = []C16Pre{{K: "undelegate-all", Val: 3, Amt: "1"}}
+		c.Method = rapid.SampledFrom([]string{"delegate", "delegate", "undelegate", "redelegate", "withdraw", "withdrawCommission"}).Draw(t, "ev-method")
+		c.AmtMode, c.Amt = "abs", rapid.SampledFrom([]string{"1", "1000", "500000"}).Draw(t, "ev-amt")
+	}
 	if c.Method == "withdrawCommission" && rapid.IntRange(0, 3).Draw(t, "op") > 0 {
 		c.Signer = "operator"
 	}
@@ -133,6 +150,7 @@ func runC16(st *ev.Stats, c C16Case) string {
 		log  string
 		feat string
 	}
+	emptied := false
 	run := func(native bool) outcome {
 		n := pxBase().Fork()
 		n.BeginBlock(chain.BlockIn{})
@@ -154,6 +172,18 @@ func runC16(st *ev.Stats, c C16Case) string {
 				cosmos(stakingtypes.NewMsgDelegate(S.Addr, v, coin))
 			case "undelegate":
 				cosmos(stakingtypes.NewMsgUndelegate(S.Addr, v, coin))
+			case "undelegate-all":
+				// everything the signer has on that validator (for the operator of a validator without other delegators this
+				// leaves a validator record with no tokens and no shares)
+				if d, found := app.StakingKeeper.GetDelegation(n.Ctx(), S.Addr, v); found {
+					if vv, ok := app.StakingKeeper.GetValidator(n.Ctx(), v); ok {
+						if ok, _, _ := cosmos(stakingtypes.NewMsgUndelegate(S.Addr, v, sdk.NewCoin(chain.Denom, vv.TokensFromShares(d.Shares).TruncateInt()))); ok {
+							if v2, _ := app.StakingKeeper.GetValidator(n.Ctx(), v); v2.Tokens.IsZero() {
+								emptied = true
+							}
+						}
+					}
+				}
 			case "setw":
 				cosmos(distrtypes.NewMsgSetWithdrawAddress(S.Addr, pxW.Addr))
 			}
@@ -307,6 +337,9 @@ func runC16(st *ev.Stats, c C16Case) string {
 		return ""
 	}
 	st.Class("signer:" + S.Label)
+	if emptied {
+		st.Class("prelude-emptied-a-validator")
+	}
 	if a.ok {
 		st.Class("both-succeed:" + c.Method + ":" + c.Signer)
 		if c.Signer == "vesting" {
